@@ -733,3 +733,13 @@ package server
 //@   ghost at entry: ghost.activityIndexRestored := false
 //@   ghost after call SetLastPublishedRaftIndex: ghost.activityIndexRestored := true
 //@   ensures [last-published-index-restored] result == nil ==> ghost.activityIndexRestored
+
+// resuming a paused partition also clears the flag in the partition's protobuf value - that value is what a
+// snapshot stores, so a left-over flag brings the partition back paused after a restart from a snapshot (C06)
+//@ ghost var partitionReplaced bool
+//@ func (*metadataAPI).ResumePartition serves C06
+//@   returns (part, err)
+//@   requires m != nil
+//@   ghost at entry: ghost.partitionReplaced := false
+//@   ghost after call replacePartition: ghost.partitionReplaced := ret1 == nil
+//@   ensures [paused-flag-cleared-in-the-metadata] err == nil && ghost.partitionReplaced ==> part != nil && !part.Partition.Paused
